@@ -340,3 +340,26 @@ def c18_ctor(E, s):
         E.true('returned_only_if_compatible', compat)
     elif s.get('class_check', True):
         E.true('documented_exception_class', exc in LIB_ERRORS)
+
+
+@scenario
+def c18_solver_guards(E, s):
+    """AMEn entry points: incompatible operands (assumed by construction) must be rejected with the documented class"""
+    B = s.get('B', 3)
+    d = s['d']
+    A, NA, MA, _ = s_tt(E, 'A', d, s.get('kA', 'ttm'), B)
+    b, Nb, Mb, _ = s_tt(E, 'b', s.get('db', d), s.get('kb', 'tt'), B)
+    what = s['what']
+    tt = E.tt
+    if s.get('kA', 'ttm') == 'ttm' and s.get('kb', 'tt') == 'tt' and s.get('db', d) == d:
+        compat = all_eq(NA, Nb)
+        if what == 'amen_solve':
+            compat = compat & all_eq(MA, NA)
+        E.assume(~compat if not isinstance(compat, bool) else (not compat))
+    f = {'amen_solve': lambda: tt.solvers.amen_solve(A, b, nswp=1, use_cpp=False),
+         'amen_mv': lambda: tt.amen_mv(A, b, nswp=1, use_cpp=False)}[what]
+    ok, z, exc = attempt(E, f)
+    if ok:
+        E.true('must_raise', False)
+    elif s.get('class_check', True):
+        E.true('documented_exception_class', exc in LIB_ERRORS)
